@@ -226,6 +226,54 @@ type listItemXML struct {
 	XMLName    xml.Name       `xml:"list-item"`
 	Paragraphs []paragraphXML `xml:"p"`
 	SubLists   []listXML      `xml:"list"` // Nested lists
+
+	// Children holds the paragraphs and nested lists in document order (set when
+	// the item is decoded from XML): an item may continue with a paragraph after
+	// a nested list.
+	Children []listItemChild `xml:"-"`
+}
+
+// listItemChild is one child of a list item: a paragraph or a nested list.
+type listItemChild struct {
+	Paragraph *paragraphXML
+	List      *listXML
+}
+
+// UnmarshalXML decodes a list item keeping the order of its paragraphs and
+// nested lists.
+func (li *listItemXML) UnmarshalXML(d *xml.Decoder, start xml.StartElement) error {
+	li.XMLName = start.Name
+	for {
+		tok, err := d.Token()
+		if err != nil {
+			return err
+		}
+		switch t := tok.(type) {
+		case xml.StartElement:
+			switch t.Name.Local {
+			case "p", "h":
+				var p paragraphXML
+				if err := d.DecodeElement(&p, &t); err != nil {
+					return err
+				}
+				li.Paragraphs = append(li.Paragraphs, p)
+				li.Children = append(li.Children, listItemChild{Paragraph: &li.Paragraphs[len(li.Paragraphs)-1]})
+			case "list":
+				var l listXML
+				if err := d.DecodeElement(&l, &t); err != nil {
+					return err
+				}
+				li.SubLists = append(li.SubLists, l)
+				li.Children = append(li.Children, listItemChild{List: &li.SubLists[len(li.SubLists)-1]})
+			default:
+				if err := d.Skip(); err != nil {
+					return err
+				}
+			}
+		case xml.EndElement:
+			return nil
+		}
+	}
 }
 
 // tableXML represents a table (<table:table>).
